@@ -98,7 +98,11 @@ def generate(job):
         card = cards.make_card(rm, "S3", n_res=2)
     else:
         strategy = rm.choice([s for s in STRATEGIES if s not in TRACED and s != "default"] + ["default"])
-        card = cards.make_card(rm)
+        if rm.chance(0.45) and strategy != "nll_cached_int":  # cached integrals require fixed line shapes (property text)
+            # some resonances float their mass/width (their line shape cannot be cached; values are never moved here)
+            card = cards.make_card(rm, "S3", floating=True, n_res=3)
+        else:
+            card = cards.make_card(rm)
     nops = ro.randint(3, 8 if klass == "untraced" else 6)
     ops = []
     pool = list(OPS)
